@@ -209,7 +209,9 @@ fn lex_block_string(lexer: &mut Lexer<'_, IsographLangTokenKind>) -> bool {
                 return true;
             }
             BlockStringToken::EscapedTripleQuote | BlockStringToken::Other => {}
-            BlockStringToken::Error => unreachable!(),
+            // A character that no BlockStringToken pattern matches (e.g. a control
+            // character or one outside the Basic Multilingual Plane): not a block string.
+            BlockStringToken::Error => return false,
         }
     }
     false
